@@ -376,20 +376,24 @@ open Jomini Jomini.TextReader.Spec
 
 /-! ### the source and the buffer -/
 
-/-- a schedule without fault steps whose read sizes are at least one byte (harness/src/sched.rs only
-produces such sizes) -/
+/-- a schedule whose read sizes are at least one byte (harness/src/sched.rs only produces such sizes);
+fault steps (`fail`, `failForever`) are allowed -/
 def WfStep : Step → Prop
   | .give n => 1 ≤ n
   | .repeat_ n => 1 ≤ n
-  | .fail => False
-  | .failForever => False
+  | .fail => True
+  | .failForever => True
 
 def WfSched (s : List Step) : Prop := ∀ x ∈ s, WfStep x
 
+/-- no fault steps at all -/
+def NoFaults (s : List Step) : Prop := ∀ x ∈ s, x ≠ .fail ∧ x ≠ .failForever
+
 theorem Src.read_wf (s : Src) (space : Nat) (hs : 1 ≤ space) (hw : WfSched s.sched) :
+    ((s.read space).2 = none ∧ WfSched (s.read space).1.sched ∧ ¬NoFaults s.sched) ∨
     ∃ n, (s.rest ≠ [] → 1 ≤ n) ∧ n ≤ space ∧ n ≤ s.rest.length ∧
       (s.read space).2 = some (s.rest.take n) ∧ (s.read space).1.rest = s.rest.drop n ∧
-      WfSched (s.read space).1.sched := by
+      WfSched (s.read space).1.sched ∧ (NoFaults s.sched → NoFaults (s.read space).1.sched) := by
   have hlen : s.rest ≠ [] → 1 ≤ s.rest.length := by
     intro h; cases hr : s.rest with
     | nil => exact absurd hr h
@@ -397,28 +401,43 @@ theorem Src.read_wf (s : Src) (space : Nat) (hs : 1 ≤ space) (hw : WfSched s.s
   unfold Src.read
   cases hsch : s.sched with
   | nil =>
-    refine ⟨min space s.rest.length, ?_, Nat.min_le_left _ _, Nat.min_le_right _ _, rfl, rfl, ?_⟩
+    right
+    refine ⟨min space s.rest.length, ?_, Nat.min_le_left _ _, Nat.min_le_right _ _, rfl, rfl, ?_, ?_⟩
     · intro h; have := hlen h; omega
     · intro x hx; simp at hx
+    · intro _ x hx; simp at hx
   | cons st t =>
     have hst : WfStep st := hw st (by simp [hsch])
     have ht : WfSched t := fun x hx => hw x (by simp [hsch, hx])
     cases st with
     | give n =>
+      right
       simp only [WfStep] at hst
-      refine ⟨min (min n space) s.rest.length, ?_, ?_, Nat.min_le_right _ _, rfl, rfl, ht⟩
+      refine ⟨min (min n space) s.rest.length, ?_, ?_, Nat.min_le_right _ _, rfl, rfl, ht, ?_⟩
       · intro h; have := hlen h; omega
       · omega
+      · intro hnf x hx; exact hnf x (by simp [hx])
     | repeat_ n =>
+      right
       simp only [WfStep] at hst
-      refine ⟨min (min n space) s.rest.length, ?_, ?_, Nat.min_le_right _ _, rfl, rfl, ?_⟩
+      refine ⟨min (min n space) s.rest.length, ?_, ?_, Nat.min_le_right _ _, rfl, rfl, ?_, ?_⟩
       · intro h; have := hlen h; omega
       · omega
       · intro x hx; simp at hx; rcases hx with rfl | hx
         · exact hst
         · exact ht x hx
-    | fail => exact absurd hst (by simp [WfStep])
-    | failForever => exact absurd hst (by simp [WfStep])
+      · intro hnf x hx; exact hnf x hx
+    | fail =>
+      left
+      refine ⟨rfl, ht, ?_⟩
+      intro hnf; exact (hnf .fail (by simp)).1 rfl
+    | failForever =>
+      left
+      refine ⟨rfl, ?_, ?_⟩
+      · intro x hx; simp at hx; rcases hx with rfl | hx
+        · trivial
+        · exact ht x hx
+      · intro hnf; exact (hnf .failForever (by simp)).2 rfl
 
 /-- the reader `r` is at stream position `pos` with BOM state `bom`, and its window followed by the
 undelivered bytes is `d`; a slice reader (`cap = 0`) has nothing undelivered. -/
@@ -447,31 +466,40 @@ theorem Rel.setBom {r : Reader} {pos : Nat} {bom : Bom} {d : Bytes} (h : Rel r p
 theorem Rel.win_le {r : Reader} {pos : Nat} {bom : Bom} {d : Bytes} (h : Rel r pos bom d) : r.win.length ≤ d.length := by
   rw [← h.data]; simp
 
-/-- the three outcomes of `fill_buf` under a fault-free schedule: `BufferFull` (exactly when the window already fills a
-non-empty buffer), end of input, or at least one more byte. -/
+/-- the outcomes of `fill_buf`: an I/O error (only with a fault step in the schedule), `BufferFull` (exactly when the
+window already fills a non-empty buffer), end of input, or at least one more byte. -/
 theorem Rel.fill {r : Reader} {pos : Nat} {bom : Bom} {d : Bytes} (h : Rel r pos bom d) :
+    (∃ r', fillBuf r = (r', .io) ∧ r.cap ≠ 0 ∧ ¬NoFaults r.src.sched) ∨
     (fillBuf r = (r, .full) ∧ r.cap ≠ 0 ∧ r.cap ≤ r.win.length) ∨
-    (r.src.rest = [] ∧ ∃ r', fillBuf r = (r', .ok 0) ∧ Rel r' pos bom d ∧ r'.win = r.win ∧ r'.src.rest = [] ∧ r'.cap = r.cap) ∨
+    (r.src.rest = [] ∧ ∃ r', fillBuf r = (r', .ok 0) ∧ Rel r' pos bom d ∧ r'.win = r.win ∧ r'.src.rest = [] ∧ r'.cap = r.cap ∧
+      (NoFaults r.src.sched → NoFaults r'.src.sched)) ∨
     (r.src.rest ≠ [] ∧ ∃ r' n, fillBuf r = (r', .ok (n + 1)) ∧ Rel r' pos bom d ∧ n + 1 ≤ r.src.rest.length ∧
-      r'.win = r.win ++ r.src.rest.take (n + 1) ∧ r'.src.rest = r.src.rest.drop (n + 1) ∧ r'.cap = r.cap) := by
+      r'.win = r.win ++ r.src.rest.take (n + 1) ∧ r'.src.rest = r.src.rest.drop (n + 1) ∧ r'.cap = r.cap ∧
+      (NoFaults r.src.sched → NoFaults r'.src.sched)) := by
   by_cases hc : r.cap = 0
-  · right; left
+  · right; right; left
     have he := h.capz hc
-    exact ⟨he, r, by simp [fillBuf, hc], h, rfl, he, rfl⟩
+    exact ⟨he, r, by simp [fillBuf, hc], h, rfl, he, rfl, id⟩
   by_cases hfull : r.cap ≤ r.win.length
-  · left
+  · right; left
     exact ⟨by simp [fillBuf, hc]; omega, hc, hfull⟩
   have hnf : ¬ r.win.length ≥ r.cap := by omega
-  obtain ⟨n, h1, h1', hn, h2, h3, h4⟩ := Src.read_wf r.src (r.cap - r.win.length) (by omega) h.wf
-  generalize hread : r.src.read (r.cap - r.win.length) = res at h2 h3 h4
+  rcases Src.read_wf r.src (r.cap - r.win.length) (by omega) h.wf with ⟨h2, h4, h5⟩ | ⟨n, h1, h1', hn, h2, h3, h4, h5⟩
+  · left
+    generalize hread : r.src.read (r.cap - r.win.length) = res at h2 h4
+    obtain ⟨src', ob⟩ := res
+    simp only at h2 h4
+    subst h2
+    exact ⟨{ r with prior := r.prior + r.consumed, consumed := 0, src := src' }, by simp [fillBuf, hc, hnf, hread], hc, h5⟩
+  generalize hread : r.src.read (r.cap - r.win.length) = res at h2 h3 h4 h5
   obtain ⟨src', ob⟩ := res
-  simp only at h2 h3 h4
+  simp only at h2 h3 h4 h5
   subst h2
   by_cases he : r.src.rest = []
-  · right; left
+  · right; right; left
     have hn0 : n = 0 := by simp [he] at hn; exact hn
     subst hn0
-    refine ⟨he, { r with prior := r.prior + r.consumed, consumed := 0, src := src', win := r.win ++ [] }, ?_, ?_, by simp, by simp [h3, he], rfl⟩
+    refine ⟨he, { r with prior := r.prior + r.consumed, consumed := 0, src := src', win := r.win ++ [] }, ?_, ?_, by simp, by simp [h3, he], rfl, h5⟩
     · simp [fillBuf, hc, hnf, hread]
     · constructor
       · have := h.pos; simp only [Reader.position] at this ⊢; omega
@@ -479,12 +507,12 @@ theorem Rel.fill {r : Reader} {pos : Nat} {bom : Bom} {d : Bytes} (h : Rel r pos
       · simp only [h3, he, List.drop_nil, List.append_nil]; rw [← h.data, he]; simp
       · exact h4
       · intro hc0; exact absurd hc0 hc
-  · right; right
+  · right; right; right
     have hn1 := h1 he
     obtain ⟨m, rfl⟩ : ∃ m, n = m + 1 := ⟨n - 1, by omega⟩
     have hl : (List.take (m + 1) r.src.rest).length = m + 1 := by simp; omega
     refine ⟨he, { r with prior := r.prior + r.consumed, consumed := 0, src := src', win := r.win ++ List.take (m + 1) r.src.rest }, m,
-      ?_, ?_, hn, rfl, h3, rfl⟩
+      ?_, ?_, hn, rfl, h3, rfl, h5⟩
     · simp [fillBuf, hc, hnf, hread, hl]
     · constructor
       · have := h.pos; simp only [Reader.position] at this ⊢; omega
@@ -493,14 +521,24 @@ theorem Rel.fill {r : Reader} {pos : Nat} {bom : Bom} {d : Bytes} (h : Rel r pos
       · exact h4
       · intro hc0; exact absurd hc0 hc
 
-/-- the call ended in `BufferFull`: the window already filled the (non-empty) buffer -/
+/-- the call stopped with an error that is not the reference's: `BufferFull` (the window already filled the non-empty
+buffer of capacity `cap`) or an I/O error of the underlying `Read` -/
 def FullAlt {α : Type} (cap : Nat) (d : Bytes) (res : Res α) : Prop :=
-  ∃ r', res = .err r' .full ∧ cap ≠ 0 ∧ cap ≤ r'.win.length ∧ r'.win.length ≤ d.length
+  cap ≠ 0 ∧ ∃ r', (res = .err r' .full ∧ cap ≤ r'.win.length ∧ r'.win.length ≤ d.length) ∨ res = .err r' .io
+
+theorem FullAlt.mk_full {α : Type} {cap : Nat} {d : Bytes} {res : Res α} (r' : Reader) (h1 : res = .err r' .full)
+    (h2 : cap ≠ 0) (h3 : cap ≤ r'.win.length) (h4 : r'.win.length ≤ d.length) : FullAlt cap d res :=
+  ⟨h2, r', Or.inl ⟨h1, h3, h4⟩⟩
+
+theorem FullAlt.mk_io {α : Type} {cap : Nat} {d : Bytes} {res : Res α} (r' : Reader) (h1 : res = .err r' .io)
+    (h2 : cap ≠ 0) : FullAlt cap d res :=
+  ⟨h2, r', Or.inr h1⟩
 
 theorem FullAlt.mono {α : Type} {cap : Nat} {d d' : Bytes} {res : Res α} (h : FullAlt cap d' res) (hl : d'.length ≤ d.length) :
     FullAlt cap d res := by
-  obtain ⟨r', h1, h2, h3, h4⟩ := h
-  exact ⟨r', h1, h2, h3, by omega⟩
+  obtain ⟨h2, r', h | h⟩ := h
+  · exact ⟨h2, r', Or.inl ⟨h.1, h.2.1, by omega⟩⟩
+  · exact ⟨h2, r', Or.inr h⟩
 
 /-! ### continuing inside a quoted scalar across refills -/
 
@@ -524,9 +562,12 @@ theorem run_quote (n : Nat) : ∀ (r : Reader) (pos : Nat) (bom : Bom) (d junk a
     have e : r.win.length - a.length = junk.length := by simp [hwin]
     have hgt : ¬ a.length > r.win.length := by simp [hwin]
     have hw0 : r0.win.length ≤ d.length := by have := hrel.win_le; rw [hwin0]; simp; omega
-    rcases hrel0.fill with ⟨hfill, hc1, hc2⟩ | ⟨_, r1, hfill, hrel1, hwin1, _, _⟩ | ⟨hne, _⟩
+    rcases hrel0.fill with ⟨rio, hfill, hc1, _⟩ | ⟨hfill, hc1, hc2⟩ | ⟨_, r1, hfill, hrel1, hwin1, _, _⟩ | ⟨hne, _⟩
     · left
-      refine ⟨r0, ?_, by rw [← hcap0]; exact hc1, by rw [← hcap0]; exact hc2, hw0⟩
+      refine FullAlt.mk_io rio ?_ (by rw [← hcap0]; exact hc1)
+      rw [run]; simp only [e, hadv, hgt, if_false, hfill]
+    · left
+      refine FullAlt.mk_full r0 ?_ (by rw [← hcap0]; exact hc1) (by rw [← hcap0]; exact hc2) hw0
       rw [run]; simp only [e, hadv, hgt, if_false, hfill]
     · right
       simp only [he, List.append_nil, hnone]
@@ -543,9 +584,12 @@ theorem run_quote (n : Nat) : ∀ (r : Reader) (pos : Nat) (bom : Bom) (d junk a
     have hwin0' : r0.win = a := by rw [hwin0, hwin]; simp
     have hw0 : r0.win.length ≤ d.length := by have := hrel.win_le; rw [hwin0]; simp; omega
     have hdata : d = junk ++ a ++ r.src.rest := by rw [← hrel.data, hwin]
-    rcases hrel0.fill with ⟨hfill, hc1, hc2⟩ | ⟨he0, r1, hfill, hrel1, hwin1, _, _⟩ | ⟨hne0, r1, k, hfill, hrel1, hk, hwin1, hrest1, hcap1⟩
+    rcases hrel0.fill with ⟨rio, hfill, hc1, _⟩ | ⟨hfill, hc1, hc2⟩ | ⟨he0, r1, hfill, hrel1, hwin1, _, _⟩ | ⟨hne0, r1, k, hfill, hrel1, hk, hwin1, hrest1, hcap1, _⟩
     · left
-      refine ⟨r0, ?_, by rw [← hcap0]; exact hc1, by rw [← hcap0]; exact hc2, hw0⟩
+      refine FullAlt.mk_io rio ?_ (by rw [← hcap0]; exact hc1)
+      rw [run]; simp only [e, hadv, hgt, if_false, hfill]
+    · left
+      refine FullAlt.mk_full r0 ?_ (by rw [← hcap0]; exact hc1) (by rw [← hcap0]; exact hc2) hw0
       rw [run]; simp only [e, hadv, hgt, if_false, hfill]
     · right
       have he : r.src.rest = [] := by rw [← hsrc0]; exact he0
@@ -658,9 +702,12 @@ theorem run_unq (n : Nat) : ∀ (r : Reader) (pos : Nat) (bom : Bom) (d junk : B
     have e : r.win.length - (body.length + 1) = junk.length := by simp [hwin]
     have hgt : ¬ body.length + 1 > r.win.length := by simp [hwin]
     have hw0 : r0.win.length ≤ d.length := by have := hrel.win_le; rw [hwin0]; simp; omega
-    rcases hrel0.fill with ⟨hfill, hc1, hc2⟩ | ⟨_, r1, hfill, hrel1, hwin1, hrest1, hcap1⟩ | ⟨hne, _⟩
+    rcases hrel0.fill with ⟨rio, hfill, hc1, _⟩ | ⟨hfill, hc1, hc2⟩ | ⟨_, r1, hfill, hrel1, hwin1, hrest1, hcap1, _⟩ | ⟨hne, _⟩
     · left
-      refine ⟨r0, ?_, by rw [← hcap0]; exact hc1, by rw [← hcap0]; exact hc2, hw0⟩
+      refine FullAlt.mk_io rio ?_ (by rw [← hcap0]; exact hc1)
+      rw [run]; simp only [e, hadv, hgt, if_false, hfill]
+    · left
+      refine FullAlt.mk_full r0 ?_ (by rw [← hcap0]; exact hc1) (by rw [← hcap0]; exact hc2) hw0
       rw [run]; simp only [e, hadv, hgt, if_false, hfill]
     · right
       have hwin1' : r1.win = c :: body := by rw [hwin1, hwin0, hwin]; simp
@@ -687,9 +734,12 @@ theorem run_unq (n : Nat) : ∀ (r : Reader) (pos : Nat) (bom : Bom) (d junk : B
     have hwin0' : r0.win = c :: body := by rw [hwin0, hwin]; simp
     have hw0 : r0.win.length ≤ d.length := by have := hrel.win_le; rw [hwin0]; simp; omega
     have hdata : d = junk ++ c :: (body ++ r.src.rest) := by rw [← hrel.data, hwin]; simp
-    rcases hrel0.fill with ⟨hfill, hc1, hc2⟩ | ⟨he0, r1, hfill, hrel1, hwin1, hrest1, hcap1⟩ | ⟨hne0, r1, k, hfill, hrel1, hk, hwin1, hrest1, hcap1⟩
+    rcases hrel0.fill with ⟨rio, hfill, hc1, _⟩ | ⟨hfill, hc1, hc2⟩ | ⟨he0, r1, hfill, hrel1, hwin1, hrest1, hcap1, _⟩ | ⟨hne0, r1, k, hfill, hrel1, hk, hwin1, hrest1, hcap1, _⟩
     · left
-      refine ⟨r0, ?_, by rw [← hcap0]; exact hc1, by rw [← hcap0]; exact hc2, hw0⟩
+      refine FullAlt.mk_io rio ?_ (by rw [← hcap0]; exact hc1)
+      rw [run]; simp only [e, hadv, hgt, if_false, hfill]
+    · left
+      refine FullAlt.mk_full r0 ?_ (by rw [← hcap0]; exact hc1) (by rw [← hcap0]; exact hc2) hw0
       rw [run]; simp only [e, hadv, hgt, if_false, hfill]
     · right
       have he : r.src.rest = [] := by rw [← hsrc0]; exact he0
@@ -1032,10 +1082,13 @@ theorem core_rescan {r : Reader} {pos : Nat} {bom bom_s : Bom} {d pre tail : Byt
     simp only [e, hadv, hgt, if_false]
     rfl
   rw [hstep]
-  rcases hrel0.fill with ⟨hfill, hc1, hc2⟩ | ⟨he0, r1, hfill, hrel1, hwin1, hrest1, hcap1⟩ | ⟨hne0, r1, k, hfill, hrel1, hk, hwin1, hrest1, hcap1⟩
+  rcases hrel0.fill with ⟨rio, hfill, hc1, _⟩ | ⟨hfill, hc1, hc2⟩ | ⟨he0, r1, hfill, hrel1, hwin1, hrest1, hcap1, _⟩ | ⟨hne0, r1, k, hfill, hrel1, hk, hwin1, hrest1, hcap1, _⟩
   · left
     rw [hfill]
-    exact ⟨r0, rfl, by rw [← hcap0]; exact hc1, by rw [← hcap0]; exact hc2, by rw [hwin0', hd]; simp; omega⟩
+    exact FullAlt.mk_io rio rfl (by rw [← hcap0]; exact hc1)
+  · left
+    rw [hfill]
+    exact FullAlt.mk_full r0 rfl (by rw [← hcap0]; exact hc1) (by rw [← hcap0]; exact hc2) (by rw [hwin0', hd]; simp; omega)
   · right
     have he : r.src.rest = [] := by rw [← hsrc0]; exact he0
     rw [hfill]
@@ -1302,10 +1355,13 @@ theorem run_fallback_spec : ∀ (n : Nat) (r : Reader) (pos : Nat) (bom : Bom) (
         rw [run_fallback_unfold, hrel.pos, hrel.bom, hscanW]
         simp only [heta]
       rw [hstep]
-      rcases hrel.fill with ⟨hfill, hc1, hc2⟩ | ⟨he, r1, hfill, hrel1, hwin1, hrest1, hcap1⟩ | ⟨he, r1, k, hfill, hrel1, hk, hwin1, hrest1, hcap1⟩
+      rcases hrel.fill with ⟨rio, hfill, hc1, _⟩ | ⟨hfill, hc1, hc2⟩ | ⟨he, r1, hfill, hrel1, hwin1, hrest1, hcap1, _⟩ | ⟨he, r1, k, hfill, hrel1, hk, hwin1, hrest1, hcap1, _⟩
       · left
         rw [hfill]
-        exact ⟨r, rfl, hc1, hc2, hrel.win_le⟩
+        exact FullAlt.mk_io rio rfl hc1
+      · left
+        rw [hfill]
+        exact FullAlt.mk_full r rfl hc1 hc2 hrel.win_le
       · rw [hfill]
         simp only
         obtain ⟨f', rfl⟩ : ∃ f', f = f' + 1 := ⟨f - 1, by omega⟩
@@ -1439,13 +1495,16 @@ theorem lexFb_toks_prefix (fuel : Nat) : ∀ (n : Nat) (r : Reader) (acc : List 
       exact List.IsPrefix.trans (List.prefix_append _ _) this
     all_goals simp
 
+/-- how a run stopped early: `BufferFull` or an I/O error -/
+def StopErr (o : Outcome) : Prop := o = .err .full ∨ o = .err .io
+
 /-- the streaming reader `r1` against a slice reader `r2` over the same remaining input: same tokens, same terminal
-outcome and final position — or the streaming run ends in `BufferFull` having produced a prefix of the slice reader's
-tokens (and then the window really filled the buffer). -/
+outcome and final position — or the streaming run ends in `BufferFull` / an I/O error having produced a prefix of the
+slice reader's tokens. -/
 theorem lexFb_vs_slice (n : Nat) : ∀ (r1 r2 : Reader) (pos : Nat) (bom : Bom) (d : Bytes) (f1 f2 : Nat) (acc : List Token),
     Rel r1 pos bom d → Rel r2 pos bom d → r2.cap = 0 → 2 * d.length + 4 ≤ f1 → 2 * d.length + 4 ≤ f2 →
-    ((lexFb f1 n r1 acc).out = .err .full ∧ (lexFb f1 n r1 acc).toks <+: (lexFb f2 n r2 acc).toks ∧
-      r1.cap ≠ 0 ∧ r1.cap ≤ d.length) ∨
+    (StopErr (lexFb f1 n r1 acc).out ∧ (lexFb f1 n r1 acc).toks <+: (lexFb f2 n r2 acc).toks ∧
+      ((lexFb f1 n r1 acc).out = .err .full → r1.cap ≤ d.length)) ∨
     ((lexFb f1 n r1 acc).toks = (lexFb f2 n r2 acc).toks ∧ (lexFb f1 n r1 acc).out = (lexFb f2 n r2 acc).out ∧
      ((lexFb f1 n r1 acc).out = .end_ →
       (lexFb f1 n r1 acc).final.position = pos + d.length ∧ (lexFb f2 n r2 acc).final.position = pos + d.length)) := by
@@ -1455,16 +1514,21 @@ theorem lexFb_vs_slice (n : Nat) : ∀ (r1 r2 : Reader) (pos : Nat) (bom : Bom) 
     intro r1 r2 pos bom d f1 f2 acc h1 h2 hz hf1 hf2
     have o1 := run_fallback_spec _ r1 pos bom d f1 rfl h1 (by have := h1.rest_le; omega)
     have o2 := run_fallback_spec _ r2 pos bom d f2 rfl h2 (by have := h2.rest_le; omega)
-    -- the slice reader is never full
+    -- the slice reader never stops early
     have o2 : OutOk (run f2 .fallback r2) r2.cap pos bom d := by
-      rcases o2 with ⟨_, _, hne, _⟩ | h
+      rcases o2 with ⟨hne, _⟩ | h
       · exact absurd hz hne
       · exact h
-    rcases o1 with ⟨r', hfull, hne, hle, hwd⟩ | o1
+    rcases o1 with ⟨hne, r', ⟨hfull, hle, hwd⟩ | hio⟩ | o1
     · left
       have hl : (lexFb f1 (n + 1) r1 acc).toks = acc.reverse ∧ (lexFb f1 (n + 1) r1 acc).out = .err .full := by
         simp [lexFb, nextOptFallback, hfull]
-      refine ⟨hl.2, ?_, hne, by omega⟩
+      refine ⟨Or.inl hl.2, ?_, fun _ => by omega⟩
+      rw [hl.1]; exact lexFb_toks_prefix _ _ _ _
+    · left
+      have hl : (lexFb f1 (n + 1) r1 acc).toks = acc.reverse ∧ (lexFb f1 (n + 1) r1 acc).out = .err .io := by
+        simp [lexFb, nextOptFallback, hio]
+      refine ⟨Or.inr hl.2, ?_, fun h => by rw [hl.2] at h; simp at h⟩
       rw [hl.1]; exact lexFb_toks_prefix _ _ _ _
     unfold OutOk at o1 o2
     have hsome := specStep_isSome (pos == 0) bom d
@@ -1479,8 +1543,8 @@ theorem lexFb_vs_slice (n : Nat) : ∀ (r1 r2 : Reader) (pos : Nat) (bom : Bom) 
         simp only [lexFb, nextOptFallback, e1, e2]
         have hl : (d.drop adv).length ≤ d.length := by simp
         have := ih r1' r2' (pos + adv) b' (d.drop adv) f1 f2 (t :: acc) hr1 hr2 (by rw [hc2]; exact hz) (by omega) (by omega)
-        rcases this with ⟨ha, hb, hc, hd⟩ | this
-        · left; exact ⟨ha, hb, by rw [← hc1]; exact hc, by rw [← hc1]; omega⟩
+        rcases this with ⟨ha, hb, hc⟩ | this
+        · left; exact ⟨ha, hb, fun h => by have := hc h; rw [← hc1]; omega⟩
         · right
           refine ⟨this.1, this.2.1, ?_⟩
           intro he
